@@ -3,12 +3,16 @@
   fl L w a fbits => F::from_num(f) checked_ saturating_ wrapping_ overflowing_from_num
                     x.to_num::<fw>() checked_ saturating_ wrapping_ overflowing_to_num  lossy_from
                     C:fwd C:rev      (comparisons: C03)
+  zl L w a fbits => the az cast traits (crate feature "az", src/cast.rs), float -> F: cast checked_cast saturating_cast
+                    wrapping_cast overflowing_cast static_cast; F -> float: the same six
 """
 from fractions import Fraction
 from common import Stats, lay, opclass, panic_text
 from floats import decode_float, encode_float, float_class
 
 FORM5 = ("from_num", "checked_from_num", "saturating_from_num", "wrapping_from_num", "overflowing_from_num")
+AZ_FROM = ("az_cast", "az_checked_cast", "az_saturating_cast", "az_wrapping_cast", "az_overflowing_cast")
+AZ_TO = ("az_to_cast", "az_to_checked_cast", "az_to_saturating_cast", "az_to_wrapping_cast", "az_to_overflowing_cast", "az_to_static_cast")
 TO6 = ("to_num", "checked_to_num", "saturating_to_num", "wrapping_to_num", "overflowing_to_num", "lossy_from")
 
 
@@ -29,8 +33,11 @@ class Mon(object):
 
     def event(self, line, toks):
         st = self.st
-        if toks[0] != "fl":
+        if toks[0] not in ("fl", "zl"):
             return
+        az = toks[0] == "zl"
+        FORM5 = AZ_FROM if az else globals()["FORM5"]
+        TO6 = AZ_TO if az else globals()["TO6"]
         L = lay(toks[1])
         w = int(toks[2])
         a = int(toks[3], 16)
@@ -72,10 +79,10 @@ class Mon(object):
             # non-finite: checked -> None; saturating(+-inf) -> bounds; everything else must panic
             for i, (name, t) in enumerate(zip(FORM5, outs[0:5])):
                 st.checks += 1
-                if name == "checked_from_num":
+                if i == 1:
                     if t != "N":
                         st.violation("C05:%s:nonfinite-not-None:%s" % (name, fam), line, "got %s for %s" % (t, kind))
-                elif name == "saturating_from_num" and kind == "inf":
+                elif i == 2 and kind == "inf":
                     exp = "V:%x" % ((L.hi if val > 0 else L.lo) & L.mask)
                     if t != exp:
                         st.violation("C05:%s:inf-not-bound:%s" % (name, fam), line, "got %s expected %s" % (t, exp))
@@ -83,11 +90,19 @@ class Mon(object):
                     if t[0] != "P":
                         st.violation("C05:%s:nonfinite-accepted:%s:%s" % (name, kind, fam), line,
                                      "returned %s for a %s input instead of panicking" % (t, kind))
+        if az:
+            # static_cast float -> fixed can never be statically safe: None; a Some must at least be the right value
+            t = outs[5]
+            st.checks += 1
+            if t != "N" and (kind != "fin" or t != exps[1]):
+                st.violation("C05:az_static_cast:%s:%s:%s" % ("panic" if t[0] == "P" else "wrong", fc, fam), line,
+                             "static_cast of a float returned %s" % (panic_text(t) if t[0] == "P" else t))
+            outs = outs[0:5] + outs[6:12]
         # ---- fixed -> float
         A = L.val(a)
         eb = encode_float(w, A, L.f)
         et = "%x" % eb
-        exps = ["V:" + et, "S:" + et, "V:" + et, "V:" + et, "O:%s:0" % et, "V:" + et]
+        exps = ["V:" + et, "S:" + et, "V:" + et, "V:" + et, "O:%s:0" % et, ("S:" if az else "V:") + et]
         for name, exp, t in zip(TO6, exps, outs[5:11]):
             st.checks += 1
             if t != exp:
@@ -96,12 +111,14 @@ class Mon(object):
         tfc = float_class(w, eb)
         nb = abs(A).bit_length()
         rounded = nb > (24 if w == 32 else 53)
-        st.cover(L.name, "fl%d" % w, (fc, oc, tfc, "rnd" if rounded else "exact"), fc != "zero" and a != 0, line)
+        st.cover(L.name, ("zl%d" if az else "fl%d") % w, (fc, oc, tfc, "rnd" if rounded else "exact"), fc != "zero" and a != 0, line)
 
 
 def allowed_checked_panics(toks):
     """plain from_num of a finite float whose rounded value does not fit; every
     non-checked form for non-finite input (documented)"""
+    if toks[0] not in ("fl", "zl"):
+        return set()
     L = lay(toks[1])
     w = int(toks[2])
     kind, val = decode_float(w, int(toks[4], 16))
